@@ -159,17 +159,18 @@ theorem run_wakes_nil (w : Switches) (q : Quirks) (evs : List Dbs.Ev) : ∀ (st 
     no EVALSHA (when `evalshaDb0`), no FLUSHDB/DBSIZE/KEYS inside a script (when `scriptDbCmdsDb0`) -/
 def Benign (w : Switches) (inExec : Bool) : Req → Prop
   | .plain a _ => (inExec = true ∧ w.execSelectNoop = true) → nameOf a ≠ "SELECT"
-  | .script sha cmds => (w.evalshaDb0 = true → sha = false) ∧
+  | .script sha cmds _ => (w.evalshaDb0 = true → sha = false) ∧
                         (w.scriptDbCmdsDb0 = true → ∀ x ∈ cmds, scriptDbCmds.contains (nameOf x) = false)
 
 theorem runScript_eq_fixed (w : Switches) (q : Quirks) (c sel : Nat) (sha : Bool) (now : Nat)
     (h1 : w.evalshaDb0 = true → sha = false) (cmds : List (List Bytes))
     (h2 : w.scriptDbCmdsDb0 = true → ∀ x ∈ cmds, scriptDbCmds.contains (nameOf x) = false) :
-    ∀ (st : State) (last : Frame), runScript w q c sel sha now st cmds last = runScript Switches.fixed q c sel sha now st cmds last := by
+    ∀ (st : State) (pcs : List Bool) (last : Frame),
+      runScript w q c sel sha now st cmds pcs last = runScript Switches.fixed q c sel sha now st cmds pcs last := by
   induction cmds with
-  | nil => intro st last; rfl
+  | nil => intro st pcs last; rfl
   | cons cmd rest ih =>
-    intro st last
+    intro st pcs last
     have hdb : scriptCmdDb w (scriptDb w sel sha) cmd = scriptCmdDb Switches.fixed (scriptDb Switches.fixed sel sha) cmd := by
       have e1 : scriptDb w sel sha = sel := by
         unfold scriptDb
@@ -184,17 +185,20 @@ theorem runScript_eq_fixed (w : Switches) (q : Quirks) (c sel : Nat) (sha : Bool
         · simp [hw]
       rw [e1, e2]
       simp [scriptCmdDb, scriptDb, Switches.fixed]
+    have ih' := ih (fun hw x hx => h2 hw x (by simp [hx]))
     simp only [runScript, hdb]
     split
-    · rfl
+    · split
+      · exact ih' _ _ _
+      · rfl
     · split
       · rfl
-      · exact ih (fun hw x hx => h2 hw x (by simp [hx])) _ _
+      · exact ih' _ _ _
 
 theorem dispatch_eq_fixed (w : Switches) (q : Quirks) (st : State) (c now : Nat) (inExec : Bool) (r : Req) (h : Benign w inExec r) :
     dispatch w q st c now inExec r = dispatch Switches.fixed q st c now inExec r := by
   cases r with
-  | script sha cmds =>
+  | script sha cmds pcs =>
     simp only [Benign] at h
     simp only [dispatch, runScript_eq_fixed w q c _ sha now h.1 cmds h.2]
   | plain a obs =>
